@@ -698,6 +698,27 @@ func (r *rig) judge() *gx.Outcome {
 			}
 		}
 	}
+	// a member that holds an issued identity and was not fenced keeps it when it rejoins (only a fenced member
+	// - UNKNOWN_MEMBER_ID / ILLEGAL_GENERATION on join or sync - or one that left starts over with an empty id)
+	if p.Members == 1 {
+		holds, mayReset := "", false
+		for _, e := range reqs {
+			switch e.Kind {
+			case "JoinGroup":
+				if e.MemberID == "" && holds != "" && !mayReset {
+					out.Violate("C07", "rejoin-dropped-issued-identity", "the member holds the issued id %q and was not fenced, but sent JoinGroup with an empty member id (the coordinator now carries a phantom member); %s", holds, lines())
+				}
+				if e.Err == sarama.ErrNoError && e.RespMember != "" {
+					holds, mayReset = e.RespMember, false
+				}
+			case "LeaveGroup":
+				holds, mayReset = "", false
+			}
+			if e.Err == sarama.ErrUnknownMemberId || e.Err == sarama.ErrIllegalGeneration || e.Err == sarama.ErrFencedInstancedId {
+				mayReset = true
+			}
+		}
+	}
 	// ---- coverage over successive sessions (single member): nothing between the first start and the last delivery is skipped
 	if p.Members == 1 {
 		m := r.ms[0]
